@@ -311,7 +311,7 @@ func runC13(res *vh.Result) {
 				}
 				ops[len(ops)-1].Sess = len(sess) - 1
 			}
-			if err := fs.Env.Barrier(); err != nil {
+			if err := fs.Quiesce(); err != nil {
 				res.Inconc("barrier: " + err.Error())
 				return
 			}
